@@ -751,7 +751,30 @@ class Check:
         vio_lines = []
 
         # 1+2. facts, proofs, model driver
-        ok, lg, mdrv, facts_info = coq_setup()
+        try:
+            ok, lg, mdrv, facts_info = coq_setup()
+        except RuntimeError as e:
+            # the model side of the correspondence cannot be built for this tree
+            # (typically: a function regenerated from the source changed its shape — e.g.
+            # gained a loop and with it a fuel argument — so the OCaml glue that runs the
+            # regenerated functions no longer type-checks, or the translator itself failed).
+            # The tie between model and code no longer checks and nothing can be compared.
+            rp = self.write_replay({"property": prop, "kind": "model-build",
+                                    "detail": "the model driver (extracted Coq model + regenerated source renderings + OCaml glue) "
+                                              "does not build for the current /repo tree, so the proofs about the regenerated "
+                                              "functions and the correspondence cannot be checked: " + str(e)[-2500:],
+                                    "broken": ["model driver build (regenerated source / extraction / harness/ml)"],
+                                    "seed": self.seed, "tier": self.tier})
+            print("VIOLATION property=%s replay=%s no-failing-input-found" % (prop, rp))
+            cov.update({"evaluations": 0, "distinct_nontrivial": 0, "samples": [], "rule": "model driver build failed",
+                        "obligations": 0, "discharged": 0, "theorems": [], "notes": [str(e)[-500:]]})
+            ev["coverage"] = cov
+            ev["wall_s"] = round(time.time() - self.t0, 2)
+            ev["violations"] = 1
+            os.makedirs(evidence_dir(), exist_ok=True)
+            json.dump(ev, open(os.path.join(evidence_dir(), prop + ".json"), "w"), indent=1)
+            print("[%s %s] model driver build failed; obligations not checked" % (prop, self.tier))
+            return 1
         cov["facts_regenerated"] = facts_info
         scan = forbidden_scan()
         obligations = []
